@@ -1260,6 +1260,21 @@ Error query_rw_info(Arch arch, const BaseInst& inst, const Operand_* operands, s
             op.set_rm_size(rm_max_size / 8u);
             break;
         }
+
+        // The R/M information is shared by all forms of an instruction id, so only keep it if the form that has this
+        // operand in memory really exists (`kmovb r32, k`, `vmovd r32, xmm`, `vpslld x, x, x` have no such form).
+        {
+          Operand_ rm_test_ops[Globals::kMaxOpCount];
+          for (uint32_t j = 0; j < op_count; j++) {
+            rm_test_ops[j] = operands[j];
+          }
+          rm_test_ops[i] = Mem(native_gp_size == 8 ? Gp::make_r64(Gp::kIdAx) : Gp::make_r32(Gp::kIdAx), 0, op.rm_size());
+          InstDB::Mode mode = native_gp_size == 8 ? InstDB::Mode::kX64 : InstDB::Mode::kX86;
+          if (validate(mode, inst, rm_test_ops, op_count, ValidationFlags::kNone) != Error::kOk) {
+            op.clear_op_flags(RegM);
+            op.set_rm_size(0);
+          }
+        }
       } while (it.has_next());
     }
 
